@@ -119,6 +119,23 @@ class Vec(list):
     pass
 
 
+class Ext:
+    """extension value supplied by a contract module (e.g. a symbolic sequence): the executor forwards attribute access,
+    subscripts, arithmetic and comparisons to it.  A method returns NotImplemented when the operation is outside its model."""
+
+    def cx_getattr(self, it, attr):
+        return NotImplemented
+
+    def cx_getitem(self, it, key):
+        return NotImplemented
+
+    def cx_binop(self, it, op, other, reflected):
+        return NotImplemented
+
+    def cx_cmp(self, it, op, other, reflected):
+        return NotImplemented
+
+
 class ExcVal:
     def __init__(self, typ, args=()):
         self.typ = typ
@@ -525,6 +542,13 @@ class Interp:
     def binop(self, op, a, b, node=None):
         if isinstance(op, (ast.BitOr, ast.BitAnd)) and isinstance(a, bool) and isinstance(b, bool):
             return (a or b) if isinstance(op, ast.BitOr) else (a and b)
+        if isinstance(a, Ext) or isinstance(b, Ext):
+            r = a.cx_binop(self, op, b, False) if isinstance(a, Ext) else NotImplemented
+            if r is NotImplemented and isinstance(b, Ext):
+                r = b.cx_binop(self, op, a, True)
+            if r is NotImplemented:
+                raise Unsupported(f'{type(op).__name__} on extension value')
+            return r
         if isinstance(a, Vec) or isinstance(b, Vec):
             if isinstance(a, Vec) and isinstance(b, Vec):
                 if len(a) != len(b):
@@ -640,6 +664,13 @@ class Interp:
         return res
 
     def cmp(self, op, a, b, node=None):
+        if (isinstance(a, Ext) or isinstance(b, Ext)) and not isinstance(op, (ast.Is, ast.IsNot)):
+            r = a.cx_cmp(self, op, b, False) if isinstance(a, Ext) else NotImplemented
+            if r is NotImplemented and isinstance(b, Ext):
+                r = b.cx_cmp(self, op, a, True)
+            if r is NotImplemented:
+                raise Unsupported(f'{type(op).__name__} comparison on extension value')
+            return r
         if isinstance(op, (ast.Is, ast.IsNot)):
             if a is None or b is None:
                 other = b if a is None else a
@@ -764,6 +795,11 @@ class Interp:
         return self.getattr(self.ev(n.value, env), n.attr, n)
 
     def getattr(self, v, attr, node=None):
+        if isinstance(v, Ext):
+            r = v.cx_getattr(self, attr)
+            if r is NotImplemented:
+                raise Unsupported(f'attribute {attr} of extension value')
+            return r
         if isinstance(v, Obj):
             if attr in v.fields:
                 return v.fields[attr]
@@ -836,8 +872,10 @@ class Interp:
             return Opaque(f'{v.tag}.{attr}', [v])
         if isinstance(v, tuple) and len(v) == 3 and v[0] == 'repo':
             return Opaque(f'function-attribute {v[2]}.{attr}')
+        if isinstance(v, Vec) and attr in ('size', 'shape', 'ndim'):
+            return {'size': len(v), 'shape': (len(v),), 'ndim': 1}[attr]
         if isinstance(v, (str, list, dict, tuple, set)):
-            return LibFn(f'{type(v).__name__}.{attr}', bound=v)
+            return LibFn(f'{"list" if isinstance(v, Vec) else type(v).__name__}.{attr}', bound=v)
         if isinstance(v, ClassRef):
             return ('classattr', v, attr)
         if isinstance(v, tuple) and len(v) == 3 and v[0] == 'repo':
@@ -902,6 +940,8 @@ class Interp:
             lo = self.ev(n.slice.lower, env) if n.slice.lower else None
             hi = self.ev(n.slice.upper, env) if n.slice.upper else None
             st = self.ev(n.slice.step, env) if n.slice.step else None
+            if isinstance(v, Ext):
+                return self.getitem(v, slice(lo, hi, st), n)
             if isinstance(v, (list, tuple, str)) and all(not is_sym(x) and not isinstance(x, Opaque) for x in (lo, hi, st)):
                 return v[slice(lo, hi, st)]
             if isinstance(v, NDArr):
@@ -913,6 +953,11 @@ class Interp:
         return self.getitem(v, k, n)
 
     def getitem(self, v, k, node=None):
+        if isinstance(v, Ext):
+            r = v.cx_getitem(self, k)
+            if r is NotImplemented:
+                raise Unsupported('subscript of extension value')
+            return r
         if isinstance(v, dict):
             if is_sym(k) or isinstance(k, Opaque):
                 raise Unsupported('symbolic dict key')
@@ -933,7 +978,7 @@ class Interp:
                             return v[i]
                     raise _Raise(ExcVal('IndexError'))
             try:
-                return v[k]
+                return Vec(v[k]) if isinstance(v, Vec) and isinstance(k, slice) else v[k]
             except (IndexError, TypeError):
                 raise _Raise(ExcVal('IndexError'))
         if isinstance(v, NDArr):
@@ -969,6 +1014,14 @@ class Interp:
         if isinstance(v, LibFn):
             if v.name.endswith(('.r_', '.c_')):
                 # np.r_[...] builds a new array from its items
+                parts = list(k) if isinstance(k, tuple) else [k]
+                if v.name.endswith('.r_') and all(isinstance(x, Vec) or (isinstance(x, (int, float)) and not isinstance(x, bool))
+                                                  or (is_sym(x) and not z3.is_bool(x)) for x in parts):
+                    out = Vec()
+                    for x in parts:
+                        out.extend(x if isinstance(x, Vec) else [x])
+                    if len(out) <= 16:
+                        return out
                 return taint(NDArr(Store(f'fresh@{getattr(node, "lineno", 0)}', None)), list(k) if isinstance(k, tuple) else [k])
             return Opaque(f'{v.name}[]')
         raise Unsupported(f'subscript of {type(v).__name__}')
